@@ -76,3 +76,7 @@ claim('C17', 'Hypothesis-generated SVG document trees (all seven element kinds, 
       'About 4k (quick) / 60k (thorough) documents (~6 leaves each): every leaf returned by Document.paths, Document.paths_from_group, svg2paths and SaxDocument is matched by id (document order for SaxDocument) and compared segment-wise through the reference matrix product (outermost ancestor first) and the SVG 1.1 shape definitions; circles/ellipses as point sets on the mapped ellipse.',
       'Trusts: vp/ref/svgdoc_ref.py (transforms per SVG 1.1 7.6, shapes per section 9); transform arguments separated by single commas/spaces; condition number of chains <= 1e3.',
       'DESIGN.md 2/C17')
+claim('C18', 'Hypothesis-generated path lists/attribute dictionaries/file locations for wsvg round trips, and Document histories generated as data (add_group/add_path/paths/save/reload); round-trip and model-based oracles across three readers',
+      'About 3k (quick) / 40k (thorough) cases: files written by wsvg are read back by svg2paths, Document and SaxDocument with the same paths in the same order (absolute d-string relation) and the supplied per-path and svg-level attributes; Document histories keep a model of every added path with its group-transform chain and compare paths() before saving and after reloading with each reader.',
+      'Trusts: vp/ref/svgdoc_ref.py transform matrices; attribute values drawn from an XML-safe alphabet; temporary directories created and removed by the check.',
+      'DESIGN.md 2/C18')
